@@ -9,7 +9,7 @@ from concurrent.futures import ThreadPoolExecutor
 
 from . import core
 
-ALPHABETS = ['A1', 'A2', 'A3', 'A4', 'A5', 'A6', 'A7', 'A8', 'A9', 'B1', 'B2', 'B3', 'B4', 'H1', 'H2', 'H3', 'R1', 'R2', 'R3']
+ALPHABETS = ['A1', 'A2', 'A3', 'A4', 'A5', 'A6', 'A7', 'A8', 'A9', 'B1', 'B2', 'B3', 'B4', 'H1', 'H2', 'H3', 'R1', 'R2', 'R3', 'W1']
 SMALL = ['R4']          # small alphabets read one line deeper (a multi-line title needs four lines to swallow a block)
 
 # classes of input on which the implementation is recorded to deviate (known_findings.json); decided by the specification (tags)
@@ -27,6 +27,11 @@ def settled(docs):
 
 def alphabet_size(cfg):
     text = open('%s/%s' % (core.SPEC, cfg)).read()
+    m = re.search(r'Alphabet <- (\w+)', text)
+    if m:          # the alphabet is defined in the module (a configuration file cannot spell a backslash)
+        spec = open('%s/BlockParse.tla' % core.SPEC).read()
+        body = re.search(r'^%s == \{(.*)\}' % m.group(1), spec, re.M).group(1)
+        return len(re.findall(r'"(?:[^"\\]|\\.)*"', body))
     body = re.search(r'Alphabet = \{(.*)\}', text).group(1)
     return len(re.findall(r'"(?:[^"\\]|\\.)*"', body))
 
